@@ -15,7 +15,7 @@ pub struct C19;
 const ALLOWED: &[&str] = &[
     "rand", "heap_pad", "env_pad", "stack", "malloc_tun", "cwd_name", "rel", "file_name", "spelling", "argv0",
     "env_kind", "locale", "rust_backtrace", "stdin", "stdout", "stderr", "merged", "decoys", "clock", "pid",
-    "env_bytes", "sig", "umask", "fds", "script_mode", "uid",
+    "env_bytes", "sig", "umask", "fds", "script_mode", "uid", "rlimit",
 ];
 
 pub fn pick_program(ctx: &Ctx, rng: &mut Rng) -> programs::Picked {
@@ -39,7 +39,7 @@ impl Property for C19 {
         if tier == "thorough" { 1_500_000 } else { 40_000 }
     }
     fn rule(&self) -> String {
-        "case = (program from W1 corpus | W5 supplementary scripts (function values, many-key objects, object rest, duplicate names) | W6 generated scripts that fail while many similarly spelled variables/properties/functions/parameters are in reach | W4 recombined corpus | W2 call-tree generator | W3 object histories) x (world: random subset of 26 dimensions (hash keys, heap/env/stack layout, malloc tunables, cwd, script location, file name, path spelling, argv[0], environment kind, locale, RUST_BACKTRACE, stdin/stdout/stderr kinds, 2>&1, decoy files, clock, pid, non-Unicode environment entries, inherited signal dispositions/mask, umask, extra open fds, script permissions/mtime, uid) changed against the reference world w0) x (plan of invisible I/O events: write/read chunking, EINTR bursts, short writes, ERANGE on getcwd, wrong size hint); oracle: transcript (stdout, stderr, exit status) equals the reference world's up to the echoed script path; a case is non-trivial when the world differs from w0 or an invisible event fired; distinct = distinct (program, world, plan) triples".to_string()
+        "case = (program from W1 corpus | W5 supplementary scripts (function values, many-key objects, object rest, duplicate names) | W6 generated scripts that fail while many similarly spelled variables/properties/functions/parameters are in reach | W4 recombined corpus | W2 call-tree generator | W3 object histories) x (world: random subset of 27 dimensions (hash keys, heap/env/stack layout, malloc tunables, cwd, script location, file name, path spelling, argv[0], environment kind, locale, RUST_BACKTRACE, stdin/stdout/stderr kinds, 2>&1, decoy files, clock, pid, non-Unicode environment entries, inherited signal dispositions/mask, umask, extra open fds, script permissions/mtime, uid, generous resource limits) changed against the reference world w0) x (plan of invisible I/O events: write/read chunking, EINTR bursts, short writes, ERANGE on getcwd, wrong size hint); oracle: transcript (stdout, stderr, exit status) equals the reference world's up to the echoed script path; a case is non-trivial when the world differs from w0 or an invisible event fired; distinct = distinct (program, world, plan) triples".to_string()
     }
     fn assumptions(&self) -> Vec<String> {
         vec![
@@ -84,18 +84,35 @@ impl Property for C19 {
         // directed worlds: whatever environment variable or relative file the
         // program was seen asking for gets a value / gets created
         if rng.chance(1, 2) {
+            let mut asked_env = false;
             for e in reference.events.iter().filter(|e| e.kind == 'E') {
                 let name = String::from_utf8_lossy(&e.data).to_string();
                 if !world.extra_env.iter().any(|(k, _)| *k == name) {
-                    let v = ["1", "0", "", "true", "/nonexistent", "xx_YY.UTF-8", "full"][rng.usize_below(7)];
+                    // half of the time a directory the simulator owns, so that files looked
+                    // for below it can be created in the second stage
+                    let v = if rng.chance(1, 2) { "@home" } else { ["1", "0", "", "true", "/nonexistent", "xx_YY.UTF-8", "full", "@home/sub"][rng.usize_below(8)] };
                     world.extra_env.push((name, v.to_string()));
+                    asked_env = true;
                 }
             }
-            for e in reference.events.iter().filter(|e| e.kind == 'o' || e.kind == 's') {
-                let path = String::from_utf8_lossy(&e.data).to_string();
-                let rel = path.strip_prefix(&format!("{}/", reference.cwd.display())).map(str::to_string).unwrap_or(path.clone());
+            // second stage: what does the program look for once those variables are set?
+            let probe = if asked_env { Some(ctx.run(worker, &p.program, &world, &Plan::new())) } else { None };
+            let home_prefix = format!("{}/", ctx.cfg.scratch.join(format!("w{worker:03}")).join("run").join("home").display());
+            let mut asked: Vec<(String, String)> = vec![];
+            for run in [Some(reference.as_ref()), probe.as_ref()].into_iter().flatten() {
+                for e in run.events.iter().filter(|e| e.kind == 'o' || e.kind == 's') {
+                    let path = String::from_utf8_lossy(&e.data).to_string();
+                    let rel = if let Some(r) = path.strip_prefix(&home_prefix) {
+                        format!("@home/{r}")
+                    } else {
+                        path.strip_prefix(&format!("{}/", run.cwd.display())).map(str::to_string).unwrap_or(path.clone())
+                    };
+                    asked.push((rel, path));
+                }
+            }
+            for (rel, _) in asked {
                 if !rel.starts_with('/') && !world.extra_files.iter().any(|(k, _)| *k == rel) {
-                    let c = ["print(\"decoy\")\n", "", "{\"k\": 1}\n", "\u{0}\u{1}junk"][rng.usize_below(4)];
+                    let c = ["print(\"decoy\")\n", "", "{\"k\": 1}\n", "\u{0}\u{1}junk", "\n\n\n"][rng.usize_below(5)];
                     world.extra_files.push((rel, c.to_string()));
                 }
             }
